@@ -177,6 +177,30 @@ pub fn gen_c12(tier: &str, seed: u64, out: &mut dyn FnMut(Value)) {
         }
         out(scenario_json(&rules, &events, &mut rng, "event sequence on one engine"));
     }
+    // long histories: thousands of distinct (source, id) pairs interleaved with a frequent one — more than a
+    // bounded cache would keep, and long enough for any periodic clean-up to run
+    let n_long = if tier == "thorough" { 6 } else { 2 };
+    for k in 0..n_long {
+        let cfg = Cfg { max_rules: 3, err_ops: false, dep_prob: (1, 3), ..Cfg::default() };
+        let mut rules = random_ruleset(&mut rng, &cfg);
+        // make sure at least one rule is reported for the frequent event whatever the id
+        rules.push(SRule {
+            name: "always".into(),
+            ty: Some("detection".into()),
+            match_on: Some(serde_json::json!([["s", []]])),
+            ops: vec![("$a".into(), Operand::Test { segs: fpath(0), op: 0, lit: Lit::sq("1") })],
+            cond: Some(Form::V("$a".into())),
+            severity: Some(3),
+            ..Default::default()
+        });
+        let total = 8400 + 700 * k;
+        let mut events = vec![];
+        for i in 0..total {
+            let id = if i % 2 == 0 { 1 } else { (i as i64) * 7 + 11 };
+            events.push(DynEvent { source: "s".into(), id, fields: vec![(fpath(0), s1("1")), (fpath(1), s1(if i % 3 == 0 { "1" } else { "0" }))] });
+        }
+        out(scenario_json(&rules, &events, &mut rng, "long history (thousands of distinct keys)"));
+    }
 }
 
 /// C13: S, supersets S+T, and dependency-respecting permutations of S
